@@ -399,6 +399,34 @@ func GenTSRun(r *Rand) *TSRunProgram {
 		probe("pq:after", q("v"))
 		probe("pp:keys", q("w,x,y,z"))
 	}
+	// a derived class that calls super() itself, nested in the body of a derived class whose own super() call
+	// esbuild has to rewrite (parameter property / field initialiser): each super() reaches its own base
+	if r.Chance(1, 2) {
+		sb.WriteString("class NB { constructor(public tag: string) { p(\"nb:ctor\", tag); } }\n")
+		inner := "class Inner extends NB { constructor() { super(\"inner\"); p(\"inner:after\", this.tag); } }"
+		outerMember := []string{"constructor(public o: string) { super(\"base:\" + o); p(\"no:after\", this.o, this.tag); }", "f = p(\"no:field\", 1);\n  constructor(o: string) { super(\"base:\" + o); p(\"no:after\", o, this.tag); }"}[r.Intn(2)]
+		fieldFirst := strings.HasPrefix(outerMember, "f =")
+		where := r.Intn(3)
+		switch where {
+		case 0: // in a method
+			sb.WriteString("class NO extends NB {\n  " + outerMember + "\n  make() { " + inner + " return new Inner(); }\n}\n")
+		case 1: // in the constructor, after super()
+			om := strings.Replace(outerMember, "this.tag); }", "this.tag); "+inner+" (this as any).made = new Inner(); }", 1)
+			sb.WriteString("class NO extends NB {\n  " + om + "\n  make() { return (this as any).made; }\n}\n")
+		default: // a class expression in a static method
+			sb.WriteString("class NO extends NB {\n  " + outerMember + "\n  static mk() { return new (class extends NB { constructor() { super(\"inner\"); p(\"inner:after\", this.tag); } })(); }\n  make() { return NO.mk(); }\n}\n")
+		}
+		sb.WriteString("const no = new NO(\"q\");\np(\"nested\", no.make().tag, no.tag);\n")
+		probe("nb:ctor", q("base:q"))
+		if fieldFirst {
+			probe("no:field", "1")
+		}
+		probe("no:after", q("q")+" "+q("base:q"))
+		probe("nb:ctor", q("inner"))
+		probe("inner:after", q("inner"))
+		probe("nested", q("inner")+" "+q("base:q"))
+		p.Stats["nested-derived-class-in-shimmed-class"]++
+	}
 	p.Files["main.ts"] = sb.String()
 	p.Expected = exp
 	return p
